@@ -281,7 +281,32 @@ pub fn run_client(cfg: &ScenCfg, out: &mut RunOut) {
         ctx: Arc::into_raw(states.clone()) as *mut c_void,
     };
     let host = CString::new("10.0.0.9").unwrap();
-    let qcap: u16 = [1u16, 2, 4, 16][choose(4) as usize];
+    // a request queue of size 0 is a configuration a C caller can pass: the channel must be created (or
+    // refused with an error), not bring the process down. The Rust constructor behind the C function is
+    // tried first, under catch_unwind, because a panic inside the extern "C" function aborts the process
+    let zero_queue_ok = std::panic::catch_unwind(|| {
+        let _ = rodbus::client::create_tcp_client_task_with_options(
+            rodbus::client::HostAddr::ip("10.0.0.9".parse().unwrap(), 502),
+            rodbus::doubling_retry_strategy(std::time::Duration::from_millis(100), std::time::Duration::from_millis(100)),
+            None,
+            rodbus::ClientOptions::default().max_queued_requests(0),
+        );
+    })
+    .is_ok();
+    if !zero_queue_ok {
+        if !out.known("C18", "client_queue_size_zero_panics") {
+            let d = "creating a client channel with max_queued_requests = 0 panics (tokio::sync::mpsc::channel(0)); through rodbus_client_channel_create_tcp the panic leaves an extern \"C\" function, which aborts the process".to_string();
+            out.violate("C18", "client_queue_size_zero_panics", d.clone());
+            out.violate("C13", "client_queue_size_zero_panics", d);
+            return;
+        }
+    }
+    let qcap_arg: u16 = if zero_queue_ok { [0u16, 1, 2, 4, 16][choose(5) as usize] } else { [1u16, 2, 4, 16][choose(4) as usize] };
+    // a queue of 0 is a queue of 1 (as max_sessions = 0 is one session on the server side)
+    let qcap: u16 = qcap_arg.max(1);
+    if qcap_arg == 0 {
+        out.probe("ffi_queue_size_zero");
+    }
     let retry_ms = 100u64;
     let mut ch: *mut rodbus_ffi::ClientChannel = std::ptr::null_mut();
     let rc = unsafe {
@@ -289,7 +314,7 @@ pub fn run_client(cfg: &ScenCfg, out: &mut RunOut) {
             rt.ptr,
             host.as_ptr(),
             502,
-            qcap,
+            qcap_arg,
             ffi::RetryStrategy { min_delay: retry_ms, max_delay: retry_ms },
             ffi_decode(dec_idx),
             listener,
